@@ -101,6 +101,10 @@ def denote(e, data, t, lib):
         ct = V.truth(c)
         if isinstance(ct, bool):
             return x if ct else y
+        # the generated code forked on this very condition: follow the branch of the current path (keeps constant folding identical)
+        took = lib.ctx.decided.get(z3.simplify(ct).sexpr())
+        if took is not None:
+            return x if took else y
         return SFloat(z3.If(ct, V.to_float_term(x), V.to_float_term(y)))
     raise OutOfSubset(f'tree node {type(e).__name__} has no symbolic denotation')
 
